@@ -285,7 +285,11 @@ def run_child(exe, c):
     o_r, o_w = _stream(out_tty)
     e_r, e_w = _stream(err_tty)
     try:
-        p = subprocess.Popen([exe, "child", str(target), str(int(tty_only)), _b(render_pattern(chunks)).hex(),
+        mode = str(target)
+        if not tty_only and target in (0, 1) and (len(_b(msg)) + lv + int(out_tty) + 2 * int(err_tty)) % 3 == 0:
+            # every third unrestricted case: the stream's ConsoleWriter is the encoder's writer DIRECTLY (no lock())
+            mode = str(4 + int(target))
+        p = subprocess.Popen([exe, "child", mode, str(int(tty_only)), _b(render_pattern(chunks)).hex(),
                               str(lv), _b(msg).hex()],
                              stdin=subprocess.DEVNULL, stdout=o_w, stderr=e_w, env=e, close_fds=True)
     finally:
